@@ -332,6 +332,48 @@ func run(c *runner.Ctx) {
 	if !defaultMode {
 		spuriousMisses(c, d, all, expect, 3)
 		lateRegistration(c, d)
+		sharedRuleMap(c, d)
+	}
+}
+
+// sharedRuleMap: one rule-map object is passed to successive calls and edited in place between them (same address,
+// same number of keys): each call is judged by what the map holds at the time of the call.
+func sharedRuleMap(c *runner.Ctx, d *deleg) {
+	c.Space(c.Mode + ":rule-map-edited-in-place")
+	texts := []map[string]string{{"F": "eq=9|ovr-F"}, {"F": "eq=3|ovr2-F"}, {"G": "eq=1|ovr-G"}, {"F": "to=1~2|ovr3-F"}, {"F": "eq=9|ovr-F"}}
+	for _, cf := range cfgs {
+		for ty := range values {
+			for _, tag := range []string{"a", "b"} {
+				for start := 0; start < len(texts); start++ {
+					if !c.Take() {
+						continue
+					}
+					d.inner, d.loads, d.missAt = cf.mk(), 0, nil
+					rm := valid.RM{}
+					var trace []string
+					for k := 0; k < len(texts); k++ {
+						cur := texts[(start+k)%len(texts)]
+						for key := range rm {
+							delete(rm, key)
+						}
+						for key, v := range cur {
+							rm[key] = v
+						}
+						want := walk.Struct(values[ty], walk.Opts{Tag: tag, Unscoped: cur}).Error()
+						got := ""
+						if err := valid.StructForFn(values[ty], rm, tag); err != nil {
+							got = err.Error()
+						}
+						trace = append(trace, fmt.Sprint(cur))
+						if got != want {
+							c.Violation("stale-rule-map-content", map[string]interface{}{"config": cf.name, "type": fmt.Sprintf("T%d/%s", ty+1, tag), "rule_map_history": trace, "expected": want, "actual": got})
+							break
+						}
+					}
+					c.Done(true, len(texts))
+				}
+			}
+		}
 	}
 }
 
@@ -456,7 +498,7 @@ func main() {
 		Technique: "explicit enumeration of all call histories up to a depth x cache configurations x start states on the real code vs pure-function model (cross-configuration differential)",
 		Rule: "calls = 4 types (nested, time.Time fields, a pair of mutually recursive types) x tag names {a,b} (different rules per tag on the same fields; the value violates the a-rules on one field and the b-rules on another) x {tag rules, per-call override of the shared field}; " +
 			"all sequences of length d (3 quick, 4 thorough) from 3 start states (cold, warmed under the other tag / with overrides, warmed then flushed by capacity+1 filler types) on 8 cache configurations switched in-process, plus, for the bounded LRUs of capacity 1,2,3,8, the start states churn-r (r = 1..2*capacity+3 evictions before the sequence, and 1024..1027 for the default-size LRU(512): every position of the LRU's internal map rebuild relative to the next d calls) " +
-			"and on the untouched package default (separate worker set); and every depth-3 sequence on LRU(1), LRU(2), LRU(512), sync.Map with one (thorough: one or two) of its cache loads answered with a miss although the entry is present (the answer a concurrent eviction produces); and the history (validate, register a global function for a name the type uses, validate) on every configuration; every call compared with walk(type, tag, override, value); states = (configuration, per-type last tag) ; non-trivial = a type re-validated under the other tag",
+			"and on the untouched package default (separate worker set); and every depth-3 sequence on LRU(1), LRU(2), LRU(512), sync.Map with one (thorough: one or two) of its cache loads answered with a miss although the entry is present (the answer a concurrent eviction produces); one rule-map object edited in place between successive calls, and the history (validate, register a global function for a name the type uses, validate) on every configuration; every call compared with walk(type, tag, override, value); states = (configuration, per-type last tag) ; non-trivial = a type re-validated under the other tag",
 		Assumptions: []string{"walk model internal/walk", "the global cache is replaced through the public SetStructTypeCache only"},
 		Run:         run,
 		Modes:       []runner.Mode{{Name: "inproc"}, {Name: "default", Workers: 8}},
